@@ -159,6 +159,10 @@ def c19(tier, seed):
     for prog, args in progs:
         for mode in ('schar', 'uchar'):
             runs.append(Run(prog, mode, args, label='%s[%s] %s' % (prog, mode, ' '.join(args))))
+    # the same with assertions compiled in (Debug builds run the library's own word-list self-test inside polyseed_inject)
+    for prog, args in [('e2_words', []), ('e2_maxlen', [])] + ([('e2_prefix', [])] if tier == 'thorough' else []):
+        for mode in ('schar-dbg', 'uchar-dbg'):
+            runs.append(Run(prog, mode, args, label='%s[%s] %s' % (prog, mode, ' '.join(args))))
     def diff(results):
         out = []; cmp_blocks = 0
         for i in range(0, len(results), 2):
